@@ -77,7 +77,9 @@ func dispatchFile(e *env) *lib.CasesFile {
 
 func newFile() *lib.CasesFile {
 	return &lib.CasesFile{Imports: corrImports, Typ: "newcase",
-		Obligations: map[string]string{"new_model": "new_mismatches cases"}}
+		Obligations: map[string]string{"new_model": "new_mismatches cases",
+			// receiver Boolean: dispatch table and body of the constructor are modelled too (no oracle)
+			"new_boolean_model": "new_modelled_mismatches cases"}}
 }
 
 func instFile() *lib.CasesFile {
@@ -264,7 +266,7 @@ func runNewFamily(cfg *lib.Config, res *lib.Result, e *env, rng *lib.Rng) {
 		if n%997 == 1 {
 			res.Sample(map[string]interface{}{"kind": "new", "input": nc.text(), "observed": obs.Out.String()})
 		}
-		if (n%coqStride == 0 || failed) && nc.RecvT != nil {
+		if nc.RecvT != nil && (n%coqStride == 0 || failed || nc.RecvT.K == "Boolean") {
 			if g, ok := e.newGallina(nc, obs); ok {
 				cf.Add(g, nc)
 			}
@@ -355,7 +357,7 @@ func runInstFamily(cfg *lib.Config, res *lib.Result, e *env, rng *lib.Rng) {
 	inst := e.instFor(aliasSet)
 	ts := append(append(plainTypes(), aliasTypes()...), fragmentReceivers()...)
 	vals := append(valuePool(), vStr("abcd"), vInt(-4), vArr(vInt(0), vInt(5)), vArr(vInt(0), vInt(6)), vArr(vStr("a"), vStr("b")),
-		vArr(vUndef()), vFloat(-0.0))
+		vArr(vUndef()), vFloat(-0.0), vStr("\u00e9"), vStr("\u65e5\u672c"), vStr("a\u00e9"), vStr("\u65e5\u672c\u8a9ex"))
 	for _, t := range ts {
 		for _, v := range vals {
 			ic := &InstCase{Kind: "inst", T: t, V: v}
